@@ -133,6 +133,8 @@ class KeyCondition(Condition):
 
     def _qasm_(self, args: cirq.QasmArgs, **kwargs) -> str | None:
         args.validate_version('2.0', '3.0')
+        if self.index != -1:
+            raise ValueError('QASM conditions can only refer to the latest measurement of a key.')
         key_str = str(self.key)
         if key_str not in args.meas_key_id_map:
             raise ValueError(f'Key "{key_str}" not in QasmArgs.meas_key_id_map.')
